@@ -25,6 +25,7 @@ type refEngine struct {
 }
 
 func newRef(dir string) (*refEngine, error) {
+	_ = os.RemoveAll(dir)
 	if err := os.MkdirAll(dir, 0o755); err != nil {
 		return nil, err
 	}
